@@ -10,6 +10,25 @@ TECH = ("contract-based deductive verification: own VC generator (txvc) symbolic
 
 # pid -> (level text, level note, design ref, technique suffix)
 CLAIMED = {
+    "C10": (
+        "Partial - for the plain FQN provider (scope_redirection_logic is None; FQNImportURI / FQNGlobalRepo are not "
+        "covered). Proved: find_obj(parent, name), one step of a qualified name: the object returned is held by an "
+        "attribute found in parent.__dict__ that is a CONTAINMENT attribute of parent's class (cont == True in "
+        "_tx_attrs; never the parent link, never a reference attribute; objects whose class has no _tx_attrs are "
+        "searched as before) and has the name; None is returned only if no such attribute holds an object with that "
+        "name (completeness of one step, through the Skolem functions of the comprehension over __dict__). "
+        "_find_obj_fqn: the parts of name.split('.') are consumed left to right, each one containment step from the "
+        "object reached so far (inductive relation chain(p, name, i, o), loop invariant), all parts consumed, the "
+        "result conforms to the target class (textx_isinstance by contract). _find_referenced_obj: what is returned "
+        "was found by _find_obj_fqn from the referencing object or from an object reached from it through parent "
+        "links (relation up). NOT proved: that the NEAREST such ancestor wins, completeness of the whole chain "
+        "(needs unique sibling names as a global invariant), termination of the parent walk, tuples as attribute "
+        "values (A-WD: the engine iterates lists), FQN.__call__ itself (an assert and one call). The bounded battery "
+        "decides the whole statement natively: 140 (600 thorough) random package trees with sibling-unique, globally "
+        "repeated names, one reference each at a random depth, every third with a user class; expected target from "
+        "an oracle over the generated tree. One defect repaired: b6b22e7.",
+        "Partial correctness; implicit exceptions not excluded; redirection not covered.",
+        "DESIGN.md 5/C10, 11.12", "bounded battery for nearest-first, exactness and user classes"),
     "C02": (
         "Proved, grammar side: _update_attr_multiplicities (the recursive walk of visit_textx_rule over the Arpeggio "
         "expression of one rule) against spec functions taken from the statement - c1(r) = the largest number "
